@@ -169,6 +169,9 @@ package sem
 //@   requires (forall k in 0..diff :: shorter[k] == longer[k]) && (diff < len(shorter) && diff < len(longer) ==> shorter[diff] != longer[diff])
 //@   ensures [C14.range] -1 <= result && result <= 1
 //@   ensures [C06.prec] wfIdent(shorter) && wfIdent(longer) && !pinned(shorter, longer, diff) ==> result == -idCmp(shorter, longer, diff)
+// the complete description (every case, including the pinned one), used for antisymmetry
+//@   ensures [C14.antisym] result == ite(allDigits(shorter) && allDigits(longer), ite(len(shorter) < len(longer), 1, ite(len(shorter) > len(longer), -1, -lexCmp(shorter, longer))),
+//@       ite(allDigits(shorter), 1, ite(allDigits(longer), -1, comparePreReleaseSuffix(shorter[diff:len(shorter)], longer[diff:len(longer)]))))
 
 //@ func comparePreRelease
 //@   pure
@@ -199,6 +202,8 @@ package sem
 //@   lemma
 //@   requires claimed11(a, b) && claimed11(b, a)
 //@   ensures [C06.prec] r == prec11(a, b)
+//@   split len(a) == 0 || len(b) == 0
+//@   split len(a) > len(b) && len(b) > 0
 
 // three-way comparison of the cores as unsigned 64-bit numbers
 //@ pure func cmp3(a uint64, b uint64) int = ite(a > b, 1, ite(a < b, -1, 0))
@@ -297,6 +302,25 @@ func lemmaC14LatestNeverLower(v, w Ver) (l Ver, c int) {
 func lemmaC06Version(v, w Ver) (r int) {
 	lemmaC06Precedence(v.PreRelease, w.PreRelease)
 	return v.Compare(w)
+}
+
+// C14: swapping the operands negates the result (for every pair of texts, also outside the section 11 claim)
+//@ func lemmaC14SuffixAntisym
+//@   lemma
+//@   ensures [C14.antisym] fwd == -bwd
+//@ func lemmaC14IdentAntisym
+//@   lemma
+//@   requires 0 <= diff && diff <= len(x) && diff <= len(y) && !(diff == len(x) && diff == len(y))
+//@   requires (forall k in 0..diff :: x[k] == y[k]) && (diff < len(x) && diff < len(y) ==> x[diff] != y[diff])
+//@   ensures [C14.antisym] fwd == -bwd
+
+func lemmaC14SuffixAntisym(x, y string) (fwd, bwd int) {
+	return comparePreReleaseSuffix(x, y), comparePreReleaseSuffix(y, x)
+}
+
+func lemmaC14IdentAntisym(x, y string, diff int) (fwd, bwd int) {
+	lemmaC14SuffixAntisym(x[diff:], y[diff:])
+	return compareIdentifiers(x, y, diff), compareIdentifiers(y, x, diff)
 }
 
 func lemmaC06Ordered(a, b string) (r int) {
